@@ -6,7 +6,8 @@ _Bool nondet_bool(void);
 int g_n_malloc, g_n_free, g_n_intmalloc; size_t g_malloc_bytes; void *g_exp0;
 int_t g_size0, g_used0, g_top10, g_top20; GlobalLU_t g_Glu0;
 extern int g_locks, g_unlocks, g_lock_inits;
-void *superlu_malloc(size_t size) { g_n_malloc++; g_malloc_bytes = size; return nondet_bool() ? (void*)0 : __CPROVER_allocate(size, 0); }
+int g_abort_ok;   /* set when the expander-table request (the only one the query can make) fails: MemInit then stops through the abort path */
+void *superlu_malloc(size_t size) { g_n_malloc++; g_malloc_bytes = size; if (nondet_bool()) { if (g_n_malloc == 1 && g_exp0 == 0) g_abort_ok = 1; return (void*)0; } return __CPROVER_allocate(size, 0); }
 void superlu_free(void *p) { g_n_free++; }
 int_t *intMalloc(int_t n) { g_n_intmalloc++; return nondet_bool() ? (int_t*)0 : (int_t*)__CPROVER_allocate((size_t)n * sizeof(int_t), 0); }
 /* expansion helpers: p?gstrf_expand copies old contents only when no_expand != 0, never from MemInit */
